@@ -193,3 +193,46 @@ R.contract(
     locals={"out": "Dict[str, int]"},
     feas_fresh=True, feas_timeout_ms=100,
 )
+
+# ------------------------------------------------------------------ stage-side clamps from slice budgets (T2, T3 bundle)
+# "slice budgets clamp stage work (... retrieval hits used, plan ops)".  T1's clamps are the region contract
+# t1_propagate[slice-clamps] (contracts/c12_t1.py) and the planner's min(per-turn cap, per-slice cap) is `deliberate`
+# (contracts/c13_plan.py): both are registered for C17 as well.  Here: the use-only clamp of t2_semantic and the hand-over
+# of the t3_ops cap into the plan bundle.
+R.untype("T2Hit")
+R.objtype("T2SliceCtx", {"slice_budgets": "Optional[Dict[str, Dyn]]"})
+_CAP = "some(ctx.slice_budgets)['t2_k']"
+_HAS_CAP = "(not is_none(ctx.slice_budgets) and 't2_k' in some(ctx.slice_budgets) and not is_null(" + _CAP + "))"
+R.contract(
+    "clematis/engine/stages/t2/core.py:t2_semantic", "C17", name="t2_semantic[slice-cap region]", callee=False,
+    region=('caps = getattr(ctx, "slice_budgets", None) or {}', "if _t2_cap is None:"),
+    types={"ctx": "T2SliceCtx", "state": "None", "text": "str", "t1": "None", "retrieved": "List[Un[T2Hit]]"},
+    ensures=[
+        ("no-cap-uses-every-hit", "implies(not " + _HAS_CAP + ", seq_eq(used_hits, retrieved))"),
+        ("used-hits-within-slice-cap",
+         "implies(" + _HAS_CAP + " and dyn_int_ok(" + _CAP + "), len(used_hits) <= max(dyn_int(" + _CAP + "), 0))"),
+        ("unreadable-cap-uses-nothing", "implies(" + _HAS_CAP + " and not dyn_int_ok(" + _CAP + "), len(used_hits) == 0)"),
+        ("used-hits-are-the-leading-hits",
+         "len(used_hits) <= len(retrieved) and forall(i, 0 <= i < len(used_hits), used_hits[i] == retrieved[i])"),
+        ("exactly-the-cap-when-enough-hits",
+         "implies(" + _HAS_CAP + " and dyn_int_ok(" + _CAP + "), len(used_hits) == min(max(dyn_int(" + _CAP + "), 0), len(retrieved)))"),
+        ("retrieved-kept-whole", "seq_eq(retrieved, old(retrieved))"),
+    ],
+    raises="none",
+)
+
+_T3 = "some(ctx.slice_budgets)['t3_ops']"
+_HAS_T3 = "(not is_none(ctx.slice_budgets) and 't3_ops' in some(ctx.slice_budgets) and not is_null(" + _T3 + "))"
+R.contract(
+    "clematis/engine/stages/t3/bundle.py:assemble_bundle", "C17", name="assemble_bundle[slice-caps region]", callee=False,
+    region=("slice_caps: Dict[str, int] = {}", "try: caps = getattr(ctx,"),
+    types={"ctx": "T2SliceCtx", "state": "None", "t1": "None", "t2": "None"},
+    ensures=[
+        ("plan-op-cap-handed-to-the-planner",
+         "implies(" + _HAS_T3 + " and dyn_int_ok(" + _T3 + "), 't3_ops' in slice_caps and slice_caps['t3_ops'] == dyn_int(" + _T3 + "))"),
+        ("no-cap-no-entry", "implies(not " + _HAS_T3 + ", len(slice_caps) == 0)"),
+        ("nothing-but-the-op-cap", "forall((k, 'str'), k in slice_caps, k == 't3_ops')"),
+    ],
+    raises="none",
+    locals={"slice_caps": "Dict[str, int]"},
+)
